@@ -269,9 +269,16 @@ pub fn check_prim(p: &Prim) -> Result<(), Fail> {
     }
     // sentinel behind the primitive, then read everything back
     buf.write_constrained_whole_number(0, 255, SENTINEL as i64).map_err(|_| ("sentinel".to_string(), "cannot write sentinel".to_string()))?;
-    let content = buf.content().to_vec();
-    let total = buf.bit_len();
-    for reader_kind in 0..2 {
+    let full_content = buf.content().to_vec();
+    let full_total = buf.bit_len();
+    // passes 0 / 1: Bits / BitBuffer with the sentinel behind the primitive; passes 2 / 3: the same
+    // readers on a source that ends exactly with the primitive (a zero-width primitive is then read
+    // at the very end of the data)
+    for pass in 0..4 {
+        let reader_kind = pass % 2;
+        let exact_end = pass >= 2;
+        let total = if exact_end { lead + produced } else { full_total };
+        let content: Vec<u8> = if exact_end { full_content[..(total + 7) / 8].to_vec() } else { full_content.clone() };
         let mut bits = Bits::from((&content[..], total));
         let mut bb = BitBuffer::from_bits(content.clone(), total);
         macro_rules! rd {
@@ -304,7 +311,7 @@ pub fn check_prim(p: &Prim) -> Result<(), Fail> {
                 }
             })
         });
-        let rk = if reader_kind == 0 { "Bits" } else { "BitBuffer" };
+        let rk = ["Bits", "BitBuffer", "Bits ending with the primitive", "BitBuffer ending with the primitive"][pass];
         let got = match rres {
             Err(pn) => return Err((format!("{name}:read-panic"), format!("read ({rk}) of the written bits panicked: {pn}"))),
             Ok(Err(e)) => return Err((format!("{name}:read-error"), format!("read ({rk}) of the written bits failed: Err({})", crate::util::kind_name(e.kind())))),
@@ -320,6 +327,9 @@ pub fn check_prim(p: &Prim) -> Result<(), Fail> {
         }
         if reader_kind == 0 && bits.pos() != lead + produced {
             return Err((format!("{name}:read-position"), format!("write produced {produced} bits, read advanced the position by {}", bits.pos() - lead)));
+        }
+        if exact_end {
+            continue;
         }
         let sent = catch(|| rd!(read_constrained_whole_number(0, 255)));
         match sent {
@@ -619,7 +629,7 @@ fn random(report: &Report, shards: u64, cases: u32) {
     });
 }
 
-const RULE: &str = "one PackedWrite call + the matching PackedRead call (on Bits and on BitBuffer, followed by a sentinel value) per case, compared with the X.691 reference primitives. Enumerated: all constrained whole numbers with lb in [-40,40], ub-lb <= 300, v in [lb-2, ub+2]; boundary families (all ordered pairs of {0, +-1, +-2^k, +-2^k+-1, 127/128, 255/256, 16383/16384, 65535/65536, i64 extremes} as bounds with values around them; semi-constrained/unconstrained/normally-small over the families; length determinants, octet strings and bit strings for a table of size constraints x lengths in every fragment-count class up to 13 fragments / 200000 units; indices for 1..300 root items). Generated: random primitives (proptest). Non-trivial: range > 1, length > 0, or any whole-number primitive; distinct = hash of (primitive, arguments).";
+const RULE: &str = "one PackedWrite call + the matching PackedRead call (on Bits and on BitBuffer, once followed by a sentinel value and once on a source that ends exactly with the primitive) per case, compared with the X.691 reference primitives. Enumerated: all constrained whole numbers with lb in [-40,40], ub-lb <= 300, v in [lb-2, ub+2]; boundary families (all ordered pairs of {0, +-1, +-2^k, +-2^k+-1, 127/128, 255/256, 16383/16384, 65535/65536, i64 extremes} as bounds with values around them; semi-constrained/unconstrained/normally-small over the families; length determinants, octet strings and bit strings for a table of size constraints x lengths in every fragment-count class up to 13 fragments / 200000 units; indices for 1..300 root items). Generated: random primitives (proptest). Non-trivial: range > 1, length > 0, or any whole-number primitive; distinct = hash of (primitive, arguments).";
 
 pub fn run(ctx: Ctx) -> i32 {
     let report = Report::new(ctx.clone(), RULE);
